@@ -428,6 +428,22 @@ def check(prop, tier, seed):
                         else:
                             ex_args += ['--shard', '%d/%d' % (k, nshard)]
                         tasks.append(ex.submit(run_engine, u, 'enum', out, known_tsv, seed, ex_args))
+        # in-region corpus (DESIGN 9.5): inputs inside listed cause regions that satisfied the property on the reference tree
+        corpus_gz = os.path.join(ROOT, 'corpus', prop + '.inregion.tsv.gz')
+        if os.path.exists(corpus_gz):
+            import gzip
+            by_cfg = {}
+            for l in gzip.open(corpus_gz, 'rt'):
+                c, rest = l.split('\t', 1)
+                by_cfg.setdefault(c, []).append(rest)
+            for c, ls in by_cfg.items():
+                with open(os.path.join(outdir, 'inregion-%s.tsv' % c.replace('+', '_')), 'w') as fh:
+                    fh.writelines(ls)
+            for u in units:
+                if u.cfg in by_cfg and u.cfg != 'fuzz' and u.binary:
+                    out = os.path.join(outdir, '%s-corpus.json' % u.name)
+                    tasks.append(ex.submit(run_engine, u, 'corpus', out, known_tsv, seed,
+                                           ['--corpus', os.path.join(outdir, 'inregion-%s.tsv' % u.cfg.replace('+', '_'))]))
         for t in tasks:
             results.append(t.result())
     extra_results = []
@@ -448,7 +464,10 @@ def check(prop, tier, seed):
             row['nontrivial'] += s['distinct_nontrivial']
             row['discard'] += s['discard']
             ev['evaluations'] += s['cases']
-            ev['distinct_nontrivial'] += s['distinct_nontrivial']
+            if j['mode'] == 'corpus':  # replayed inputs: counted as evaluations only (they may coincide with generated cases)
+                ev['corpus_replayed'] = ev.get('corpus_replayed', 0) + s['cases']
+            else:
+                ev['distinct_nontrivial'] += s['distinct_nontrivial']
             ev['discards'] += s['discard']
             for k, v in s['labels'].items():
                 ev['labels'][k] = ev['labels'].get(k, 0) + v
@@ -503,7 +522,7 @@ def check(prop, tier, seed):
             continue
         seen_sig.add(sig)
         rep = dict(property=prop, site=site, cfg=j['_cfg'], unit=j['_unit'], **{'class': f['class']}, msg=f['msg'], desc=f['desc'], seed=seed, tier=tier)
-        for k in ('words', 'enum_idx', 'file', 'program'):
+        for k in ('words', 'enum_idx', 'file', 'program', 'corpus'):
             if k in f:
                 rep[k] = f[k]
         h = sha(json.dumps(rep, sort_keys=True))[:12]
@@ -584,7 +603,7 @@ def check(prop, tier, seed):
             cause_regions={k: dict(passed=v[0], failed=v[1]) for k, v in sorted(ev.get('regions', {}).items())},
             exhaustive=False, exhaustive_subspaces=ev['exhaustive_sites'][:400], exhaustive_subspace_count=len(ev['exhaustive_sites']),
             uncompilable_skipped=sorted(set(sum([u.skipped for u in units], [])))[:200],
-            regress_replayed=n_regress, build_s=round(t_build, 1), engines=ev.get('engines', []), flaky=ev.get('flaky', []),
+            regress_replayed=n_regress, inregion_corpus_replayed=ev.get('corpus_replayed', 0), build_s=round(t_build, 1), engines=ev.get('engines', []), flaky=ev.get('flaky', []),
         ),
         assumptions=plan.get('assumptions', []),
         wall_s=round(wall, 1), violations=len(violations))
@@ -679,6 +698,41 @@ def main():
         j[prop] = sorted(keys)
         json.dump(j, open(p, 'w'), indent=1, sort_keys=True)
         print('%s: %d registrations do not compile on this tree (recorded)' % (prop, len(keys)))
+        return 0
+    if a[0] == 'harvest':  # (re)build corpus/<ID>.inregion.tsv.gz on the reference tree: passing cases inside cause regions
+        import gzip
+        prop = a[1]
+        per = a[2] if len(a) > 2 else '8'
+        cases = a[3] if len(a) > 3 else '60000'
+        mod = importlib.import_module('vgen.' + prop)
+        units, seen_u = [], set()
+        for tier in ('quick', 'thorough'):
+            for u in mod.plan(tier, seed)['units']:
+                if u.cfg != 'fuzz' and u.rc_cases and (u.cfg, tuple(u.regs)) not in seen_u:
+                    seen_u.add((u.cfg, tuple(u.regs)))
+                    units.append(u)
+        build_units(units)
+        hdir = os.path.join(BUILD, 'harvest', prop)
+        shutil.rmtree(hdir, ignore_errors=True)
+        os.makedirs(hdir)
+
+        def one(iu):
+            i, u = iu
+            out = os.path.join(hdir, '%d.tsv' % i)
+            cmd = [u.binary, 'harvest', '--out', out, '--cases', cases, '--per', per, '--words', str(u.words), '--seed', '20261004']
+            if u.tick_limit:
+                cmd += ['--tick-limit', str(u.tick_limit)]
+            run(cmd)
+            return [(u.cfg, l) for l in open(out).read().splitlines()] if os.path.exists(out) else []
+        lines = set()
+        with cf.ThreadPoolExecutor(JOBS) as ex:
+            for part in ex.map(one, enumerate(units)):
+                lines.update('%s\t%s' % (c, l) for c, l in part)
+        os.makedirs(os.path.join(ROOT, 'corpus'), exist_ok=True)
+        dst = os.path.join(ROOT, 'corpus', prop + '.inregion.tsv.gz')
+        with gzip.GzipFile(dst, 'wb', mtime=0) as f:
+            f.write(('\n'.join(sorted(lines)) + '\n').encode())
+        print('%s: %d in-region passing cases harvested into %s' % (prop, len(lines), dst))
         return 0
     if a[0] == 'list':
         mod = importlib.import_module('vgen.' + a[1])
